@@ -435,6 +435,17 @@ func run(c *mon.Ctx) {
 		ck.path(jpref.Path{jpspec.Root(), jpspec.Child("a"), jpspec.Nth(a), jpspec.Nth(0)}, "extreme-nth", sdata)
 		ck.path(jpref.Path{jpspec.Root(), jpspec.Union(a, 0, "a")}, "extreme-union", sdata)
 	}
+	// slices with more members than start, end and step (constructible as jp.Slice{...}): the surplus is
+	// not printed, the text must still parse
+	for _, sl := range [][]int{{1, 8, 2, 4}, {0, 3, 1, 0, 0}, {-1, 0, -1, 7}} {
+		si++
+		if !c.Mine(si) {
+			continue
+		}
+		c.Cover("slices")
+		ck.path(jpref.Path{jpspec.Root(), jpspec.Slice(sl...)}, "slice-surplus-members", sdata)
+		ck.path(jpref.Path{jpspec.Root(), jpspec.Child("a"), jpspec.Slice(sl...), jpspec.Wild()}, "slice-surplus-members", sdata)
+	}
 	for _, sl := range jpspec.ExtremeSlices() {
 		si++
 		if !c.Mine(si) {
@@ -489,6 +500,12 @@ func run(c *mon.Ctx) {
 			jpspec.Bin("search", jpspec.P(jpspec.At(), jpspec.Child("s")), jpspec.CStr("b")),
 			jpspec.Bin("eq", jpspec.P(jpspec.At(), jpspec.Child("s")), jpspec.CStr("it's \"q\" \\ /x/ \n\t é")),
 			jpspec.Bin("rx", jpspec.P(jpspec.At(), jpspec.Child("s")), jpspec.CRegex("a/b\\/c")),
+			// slashes next to backslashes: an escaped backslash directly before a plain slash, a lone slash,
+			// a slash in a class
+			jpspec.Bin("rx", jpspec.P(jpspec.At(), jpspec.Child("s")), jpspec.CRegex("a\\\\/b")),
+			jpspec.Bin("rx", jpspec.P(jpspec.At(), jpspec.Child("s")), jpspec.CRegex("/")),
+			jpspec.Bin("rx", jpspec.P(jpspec.At(), jpspec.Child("s")), jpspec.CRegex("[/]x\\\\")),
+			jpspec.Bin("rx", jpspec.P(jpspec.At(), jpspec.Child("s")), jpspec.CRegex("\\\\\\/")),
 			jpspec.Bin("eq", jpspec.P(jpspec.Root(), jpspec.Child("s")), jpspec.P(jpspec.At(), jpspec.Child("s"))),
 			jpspec.Bin("exists", jpspec.P(jpspec.At(), jpspec.Child("k"), jpspec.Filter(jpspec.Bin("gt", jpspec.P(jpspec.At()), jpspec.CInt(1)))), jpspec.CBool(true)),
 			jpspec.Bin("eq", jpspec.P(jpspec.At(), jpspec.Child("zz")), jpspec.CNothing()),
